@@ -220,7 +220,12 @@ def leg(p, lang, infmt, outfmt, vals, tag, block=None, bufsize=1, mode="copy", i
     rc, err = p.copy(lang, infmt, outfmt, infile, outfile, bufsize, mode)
     res = {"rc": rc, "stderr": err[-800:], "in": infile, "out": outfile}
     if rc != 0:
-        res.update(ok=False, msg="%s %s->%s: generated code failed on a well-formed stream: %s" % (lang, infmt, outfmt, err.strip()[-300:]))
+        import re
+        exc = [l for l in err.splitlines() if l.startswith("EXC:")]
+        m = re.findall(r"_(?:read|write)_s(\d+)\b", err)
+        where = (" (step %s)" % m[-1]) if m else ""
+        res.update(ok=False, msg="%s %s->%s: generated code failed on a well-formed stream%s: %s" % (
+            lang, infmt, outfmt, where, (exc[-1] if exc else "exit status %s %s" % (rc, err.strip()[-200:]))[:300]))
         return res
     try:
         data = open(outfile, "rb").read()
